@@ -144,14 +144,16 @@ Section Resolve.
 
   Variable loaded : list N -> bool.    (* a first-pass result exists for the file (fileStructMap) *)
 
-  (* FindOpenFileDefine over the list; possible outcomes as (candidate string, file) pairs; [] = nothing found.
-     hover shows the candidate string, definition jumps to the file. *)
-  Fixpoint open_outcomes (cur : list N) (items : list (list N)) : list (list N * list N) :=
+  (* FindOpenFileDefine over the list, as textDocument/definition and hover do: the first candidate whose best match
+     has a first-pass result wins. Possible outcomes: Some (candidate string, file) or None = nothing found
+     (several outcomes only when equally scored candidates exist). Hover shows the candidate string, definition
+     jumps to the file. *)
+  Fixpoint open_outcomes (cur : list N) (items : list (list N)) : list (option (list N * list N)) :=
     match items with
-    | [] => []
+    | [] => [None]
     | it :: rest =>
       let bs := best_set cur it st in
-      map (fun c => (it, c)) (filter loaded bs)
+      map (fun c => Some (it, c)) (filter loaded bs)
       ++ (if forallb loaded bs && negb (is_nil bs) then [] else open_outcomes cur rest)
     end.
 End Resolve.
